@@ -594,6 +594,13 @@ func main() {
 		add(sched, "random", "", n, true, scripts, acts)
 	}
 
+	qst, qnotes := queryStream(cfg)
+	for _, n := range qnotes {
+		notes = append(notes, "query/"+n)
+	}
+
+	lst, ldirect := spinnerUnderFullQueue()
+
 	extra := map[string]interface{}{"driver_notes": notes}
 	if cfg.Thorough() {
 		extra["race_detector"] = raceStress(cfg)
@@ -601,8 +608,8 @@ func main() {
 		extra["race_detector"] = "not run in the quick tier"
 	}
 	cfg.Write("C10",
-		"non-trivial = a directed schedule, or a random schedule in which a blocking post blocked or a Suspend/Resume happened; every schedule ends with Close and a drain so that loss and goroutine leaks are decidable",
-		[]*hx.Stream{sched, fullq}, extra, slowTerminal())
+		"non-trivial = a directed schedule, or a random schedule in which a blocking post blocked or a Suspend/Resume happened; every schedule ends with Close and a drain so that loss and goroutine leaks are decidable; query scenarios: non-trivial = directed, or contains an early or unanswered query or a reply at rest",
+		[]*hx.Stream{sched, fullq, qst, lst}, extra, append(slowTerminal(), ldirect...))
 }
 
 // slowTerminal: a terminal whose write of the DA1 query returns only after its reply has
